@@ -28,6 +28,9 @@ def summarise(path, want_hashes=True):
     """Load one configuration's facts and reduce them to what the C19 rules need."""
     import dispatch
     prog = Program(path)
+    if os.environ.get("VERIF_NOINLINE") != "1":
+        import inline
+        inline.apply(prog)
     res = engine.Result("tmp")
     out = {"features": prog.crate["features"], "extern_crates": prog.crate.get("extern_crates", []), "functions": len(prog.fns)}
     dec = dispatch.decode_table(prog, res)
